@@ -88,6 +88,10 @@ func buildEvidence(cfg *config, results []*jobResult, extra map[string]interface
 	// fault kinds that fired and probes
 	faults := map[string]uint64{}
 	probes := map[string]uint64{}
+	groups := map[string]map[string]uint64{}
+	groupNames := map[string]string{"depth": "trap_landing_depth_decile_by_op (n_T*10/n0; 10 = at or after the end)", "op": "operations_executed", "method": "bigint_methods_executed",
+		"wrapper": "errdecimal_wrappers_executed", "pairs": "fault_fault_free_pairs_by_op", "overlap": "c18_runs_with_preemption_inside_op/shared_operand_count",
+		"alias": "alias_patterns_exercised", "repr": "bigint_representation_transitions", "trapbit": "trap_fired_by_condition"}
 	var keys []string
 	for k := range stats {
 		keys = append(keys, k)
@@ -95,6 +99,15 @@ func buildEvidence(cfg *config, results []*jobResult, extra map[string]interface
 	sort.Strings(keys)
 	var zero []string
 	for _, k := range keys {
+		if i := strings.IndexByte(k, '_'); i > 0 {
+			if gn, ok := groupNames[k[:i]]; ok {
+				if groups[gn] == nil {
+					groups[gn] = map[string]uint64{}
+				}
+				groups[gn][k[i+1:]] = stats[k]
+				continue
+			}
+		}
 		switch {
 		case strings.HasPrefix(k, "fault_"):
 			faults[k[6:]] = stats[k]
@@ -107,6 +120,12 @@ func buildEvidence(cfg *config, results []*jobResult, extra map[string]interface
 				zero = append(zero, k)
 			}
 		}
+	}
+	for gn, g := range groups {
+		cov[gn] = g
+	}
+	if zero == nil {
+		zero = []string{}
 	}
 	cov["faults_fired"] = faults
 	cov["counters"] = probes
@@ -173,67 +192,92 @@ func determinismSelfTest(cfg *config) (map[string]interface{}, []string) {
 	if len(jobs) == 0 {
 		return st, nil
 	}
-	j := jobs[0]
 	n := uint64(24)
 	if cfg.tier == "thorough" {
-		n = 96
+		n = 64
 	}
 	type conf struct {
 		name string
 		race bool
 		gmp  string
 	}
-	confs := []conf{{"A", j.Race, "1"}, {"B", j.Race, "16"}, {"C", j.Race, "4"}}
-	if j.Race {
-		if _, err := os.Stat(j.Variant.Bin(false)); err == nil {
-			confs = append(confs, conf{"plain-build", false, "1"})
-		}
-	}
-	outs := map[string]string{}
-	for _, c := range confs {
-		for rep := 0; rep < 2; rep++ {
-			cmd := exec.Command(j.Variant.Bin(c.race), "worker", "-wl", j.WL, "-mode", j.Mode, "-seed", fmt.Sprint(j.Seed), "-from", "0", "-to", fmt.Sprint(n), "-tier", cfg.tier, "-evlog")
-			cmd.Env = append(os.Environ(), "GOMAXPROCS="+c.gmp, `GORACE=halt_on_error=1 exitcode=66`)
-			var out, errb bytes.Buffer
-			cmd.Stdout = &out
-			cmd.Stderr = &errb
-			if err := cmd.Run(); err != nil {
-				// a failing run is reported by the main exploration; here only note it
-				st["note"] = "a sampled run failed during the self-test; see the main report"
-				continue
-			}
-			var keep []string
-			for _, l := range strings.Split(out.String(), "\n") {
-				if strings.HasPrefix(l, "STATS ") {
-					continue
-				}
-				keep = append(keep, l)
-			}
-			outs[fmt.Sprintf("%s#%d", c.name, rep)] = strings.Join(keep, "\n")
-		}
-	}
-	var ref string
-	var refName string
+	total := 0
 	identical := true
-	var names []string
-	for k := range outs {
-		names = append(names, k)
-	}
-	sort.Strings(names)
-	for _, k := range names {
-		if ref == "" {
-			ref, refName = outs[k], k
+	var perJob []map[string]interface{}
+	seen := map[string]bool{}
+	for _, j := range jobs {
+		id := j.WL + "/" + j.Mode + "/" + j.Variant.Label
+		if seen[id] || (cfg.tier != "thorough" && len(seen) >= 2) {
 			continue
 		}
-		if outs[k] != ref {
-			identical = false
-			infra = append(infra, fmt.Sprintf("determinism self-test: event log of configuration %s differs from %s (first difference: %s)", k, refName, firstDiff(ref, outs[k])))
+		seen[id] = true
+		confs := []conf{{"A", j.Race, "1"}, {"B", j.Race, "16"}, {"C", j.Race, "4"}}
+		if j.Race {
+			if _, err := os.Stat(j.Variant.Bin(false)); err == nil {
+				confs = append(confs, conf{"plain-build", false, "1"})
+			}
 		}
+		outs := map[string]string{}
+		for _, c := range confs {
+			for rep := 0; rep < 2; rep++ {
+				var all []string
+				// cold runs depend on fresh process state by design: one process per run
+				step := n
+				if j.PerProc > 0 {
+					step = 1
+				}
+				failed := false
+				for from := uint64(0); from < n && !failed; from += step {
+					cmd := exec.Command(j.Variant.Bin(c.race), "worker", "-wl", j.WL, "-mode", j.Mode, "-seed", fmt.Sprint(j.Seed), "-from", fmt.Sprint(from), "-to", fmt.Sprint(from+step), "-tier", cfg.tier, "-evlog")
+					cmd.Env = append(os.Environ(), "GOMAXPROCS="+c.gmp, `GORACE=halt_on_error=1 exitcode=66`)
+					var out, errb bytes.Buffer
+					cmd.Stdout = &out
+					cmd.Stderr = &errb
+					if err := cmd.Run(); err != nil {
+						// a failing run is reported by the main exploration; here only note it
+						st["note"] = "a sampled run failed during the self-test; see the main report"
+						failed = true
+						break
+					}
+					for _, l := range strings.Split(out.String(), "\n") {
+						if strings.HasPrefix(l, "STATS ") || strings.HasPrefix(l, "PAIRS ") || l == "" {
+							continue
+						}
+						all = append(all, l)
+					}
+					if j.PerProc > 0 && from >= 7 {
+						break // 8 cold processes per configuration are enough
+					}
+				}
+				if !failed {
+					outs[fmt.Sprintf("%s#%d", c.name, rep)] = strings.Join(all, "\n")
+				}
+			}
+		}
+		var ref, refName string
+		var names []string
+		for k := range outs {
+			names = append(names, k)
+		}
+		sort.Strings(names)
+		same := true
+		for _, k := range names {
+			if ref == "" {
+				ref, refName = outs[k], k
+				continue
+			}
+			if outs[k] != ref {
+				same = false
+				identical = false
+				infra = append(infra, fmt.Sprintf("determinism self-test (%s): event log of configuration %s differs from %s (first difference: %s)", id, k, refName, firstDiff(ref, outs[k])))
+			}
+		}
+		total += len(outs)
+		perJob = append(perJob, map[string]interface{}{"workload": id, "seed": j.Seed, "executions": len(outs), "configurations": names, "event_log_bytes": len(ref), "byte_identical": same})
 	}
-	st["runs_sampled"] = n
-	st["executions"] = len(outs)
-	st["configurations"] = names
-	st["event_log_bytes"] = len(ref)
+	st["runs_sampled_per_workload"] = n
+	st["executions"] = total
+	st["workloads"] = perJob
 	st["byte_identical"] = identical
 	return st, infra
 }
